@@ -25,6 +25,9 @@ SHRINK_LISTS = ["sa", "sb", "cont"]
 
 def gen_params(rng, tier):
     spec = gen.gen_spec(rng, rng.randint(0, 3))
+    if rng.random() < 0.12:
+        # a plain histogram at the root: the containers that offer histogram()
+        spec = gen.gen_spec(rng, rng.randint(1, 2), kinds=["Bin", "SparselyBin", "CentrallyBin", "Count", "Sum", "Average"])
     g = lambda n: [[d, w] for d, w in gen.gen_stream(rng, spec, rng.randint(0, n), gate_rate=0.05)]  # noqa: E731
     cont = g(5)
     for r in cont:
@@ -83,6 +86,9 @@ def build(p):
         for h, sn in live.items():
             if h != victim:
                 ops.append(("checksnap", sn, h, "filling %s changed %s" % (victim, h)))
+    # derived aggregators (histogram(), toImmutable()) of a source and of a result
+    ops.append(("derived", "a", cont))
+    ops.append(("derived", "s", cont))
     # += into a result must not touch the sources, += of a source must not touch results
     for h, sn in live.items():
         ops.append(("snap", sn, h))
